@@ -301,6 +301,10 @@ class FTPFile(io.RawIOBase):
             raise io.UnsupportedOperation("File not open for writing")
 
         data = _to_bytes(data)
+        if not data:
+            # Nothing to send. Opening an upload would truncate the
+            # file when positioned at its start.
+            return 0
 
         with self._lock:
             if self.mode.appending and self._write_conn is None:
